@@ -1009,6 +1009,31 @@ func bgGenAny(c *Ctx, kind string) bgIn {
 			wl.ProgressDeadlineSeconds = &n
 			wl.SType = "expected"
 		}
+		// someone edited one of the fields UpgradeBatch insists on
+		switch c.Rng.Intn(14) {
+		case 0:
+			wl.MinReadySeconds = pickInt(c, 0, 5)
+		case 1:
+			if kind == "deployment" {
+				n := 600
+				wl.ProgressDeadlineSeconds = &n
+				if c.Rng.Intn(2) == 0 {
+					wl.ProgressDeadlineSeconds = nil
+				}
+			} else {
+				wl.RU.MaxUnavailable = J{"i": 1}
+			}
+		case 2:
+			wl.SType = pickS(c, "other", "empty")
+		case 3:
+			if kind == "deployment" {
+				wl.RU = nil
+			}
+		case 4:
+			wl.Ctl = -1
+		case 5:
+			wl.RU.MaxUnavailable = bgGenIOS(c, R, true)
+		}
 	case 1: // arbitrary annotations
 		switch c.Rng.Intn(5) {
 		case 0:
